@@ -104,6 +104,14 @@ class Ctx:
         self.kf = load_known_findings()
         self.notes = []
         os.makedirs(EVID, exist_ok=True)
+        # replay artefacts of earlier runs of this check are stale
+        if os.path.isdir(REPLAYS):
+            for f in os.listdir(REPLAYS):
+                if f.startswith(pid + "_"):
+                    try:
+                        os.remove(os.path.join(REPLAYS, f))
+                    except OSError:
+                        pass
 
     # ------------------------------------------------------------------ scratch
     def tmp(self, name):
